@@ -165,6 +165,7 @@ pub struct World<'a> {
     pub crash_digests: Vec<(u32, usize, [u64; 3])>,
     /// child mode of the crash twin: stop (and wait to be killed) after this step
     pub stop_after_step: Option<u32>,
+    pub pending_stats: Option<(usize, crate::handles::Stats)>,
 }
 
 pub type StepResult = Result<(), Stop>;
@@ -229,6 +230,7 @@ impl<'a> World<'a> {
             sync_events: Vec::new(),
             crash_digests: Vec::new(),
             stop_after_step: None,
+            pending_stats: None,
         }
     }
 
